@@ -23,6 +23,9 @@ ExtraValues == IF Tier = "thorough"
                      136, 192, 239, 240, 241, 254}
                ELSE {12, 240}
 
+(* two-octet length fields: the BGP-AD VPLS length, and the first value that needs the second octet *)
+ExtraValues2 == {12, 256}
+
 ClipSubs(sub, cut) ==
   LET keep == SelectSeq(sub, LAMBDA s : s.from < cut)
   IN [k \in 1..Len(keep) |-> [keep[k] EXCEPT !.to = Min(@, cut)]]
@@ -44,6 +47,9 @@ Emit ==
                /\ \A x \in ExtraValues :
                     (fs[k].w = 1 /\ fs[k].f \notin {"attrflags"} /\ x # fs[k].cur
                      /\ x \notin {0, 255, fs[k].cur - 1, fs[k].cur + 1}) => Out(i, fs[k], "set", x)
+               /\ \A x \in ExtraValues2 :
+                    (fs[k].w = 2 /\ fs[k].f # "hdrlen" /\ x \notin {fs[k].cur, fs[k].cur - 1, fs[k].cur + 1})
+                       => Out(i, fs[k], "set", x)
 
 Init == i \in 1..Len(Msgs)
 Next == UNCHANGED i
